@@ -174,6 +174,26 @@ fn bufsize(bytes: u32) -> i32 {
 struct Rng(u64);
 impl Rng { fn next(&mut self) -> u64 { self.0 ^= self.0 << 13; self.0 ^= self.0 >> 7; self.0 ^= self.0 << 17; self.0 } fn below(&mut self, n: u64) -> u64 { self.next() % n } }
 
+/// distinct 16-byte keys with the SAME full 64-bit hash value (the key hasher adds each 8-byte word to a state mixed by xorshift 12/25/27,
+/// so the second word can be solved for). The construction is checked through the public HashValue trait; if the crate's hash ever
+/// changes, the keys that do not collide are dropped (fewer than two left: the callers skip their part).
+fn colliding_keys(n: usize) -> Vec<Vec<u8>> {
+    use abyssiniandb::HashValue;
+    fn xs(a: u64) -> u64 { let mut x = a; x ^= x >> 12; x ^= x << 25; x ^= x >> 27; x }
+    let s0 = xs(u64::from_be_bytes(16usize.to_ne_bytes()));
+    let target = xs(s0.wrapping_add(u64::from_be_bytes(*b"key-0000"))).wrapping_add(u64::from_be_bytes(*b"-tail-00"));
+    let mut out: Vec<Vec<u8>> = Vec::new();
+    for i in 0..n {
+        let w1 = u64::from_be_bytes(format!("key-{i:04}").as_bytes().try_into().unwrap());
+        let w2 = target.wrapping_sub(xs(s0.wrapping_add(w1)));
+        let mut k = w1.to_be_bytes().to_vec(); k.extend_from_slice(&w2.to_be_bytes());
+        out.push(k);
+    }
+    let h0 = abyssiniandb::DbBytes::from(&out[0][..]).hash_value();
+    out.retain(|k| abyssiniandb::DbBytes::from(&k[..]).hash_value() == h0);
+    out
+}
+
 /// walk the slots of a key/value file image: returns Err(description) if the tiling is broken
 fn walk_slots(b: &[u8]) -> Result<usize, String> {
     if b.len() < 192 { return Err(format!("file shorter than its header: {}", b.len())); }
@@ -304,6 +324,15 @@ fn durable() -> i32 {
         let mut step = 0;
         let mut check = |m: &mut abyssiniandb::filedb::FileDbMapDbString, model: &BTreeMap<String, Vec<u8>>, how: u32, step: &mut u32| -> Result<(), String> {
             *step += 1;
+            // read-only calls between the update and the sync point must not make the sync skip anything (one kind per sync point)
+            match *step % 6 {
+                0 => { m.read_fill_buffer().unwrap(); }
+                1 => { let _ = m.get("a").unwrap(); let _ = m.includes_key("no such key").unwrap(); }
+                2 => { let _ = m.len().unwrap(); let _ = m.iter().count(); }
+                3 => { let _ = m.htx_filling_rate_per_mill().unwrap(); let _ = m.count_of_free_key_piece().unwrap(); let _ = m.count_of_free_value_piece().unwrap(); }
+                4 => { let _ = m.keys().count(); let _ = m.values().count(); let _ = m.key_length_stats().unwrap(); }
+                _ => { m.read_fill_buffer().unwrap(); let _ = m.get("b").unwrap(); }
+            }
             match how { 0 => m.flush().unwrap(), 1 => m.sync_data().unwrap(), _ => m.sync_all().unwrap() }
             copy_dir(&dir, &snap);
             let db2 = abyssiniandb::open_file(&snap).unwrap();
@@ -321,6 +350,11 @@ fn durable() -> i32 {
         m.put("b", b"y").unwrap(); model.insert("b".into(), b"y".to_vec()); check(&mut m, &model, 1, &mut step)?;
         m.delete("b").unwrap(); model.remove("b"); check(&mut m, &model, 2, &mut step)?;
         check(&mut m, &model, 0, &mut step)?;                                   // flush on an unmodified map
+        for i in 0..12u32 {
+            let k = format!("k{}", i % 5); let v = vec![i as u8; 3 + (i as usize * 37) % 200];
+            if i % 4 == 3 { m.delete(&k).unwrap(); model.remove(&k); } else { m.put(&k, &v).unwrap(); model.insert(k, v); }
+            check(&mut m, &model, 0, &mut step)?;
+        }
         Ok(())
     }));
     let _ = std::fs::remove_dir_all(&dir); let _ = std::fs::remove_dir_all(&snap);
@@ -580,6 +614,36 @@ fn determ() -> i32 {
             }
             for (i, e) in ["key", "val", "htx"].iter().enumerate() {
                 if images[0][i] != images[1][i] { return Err(format!("targeted history {variant}: m.{e} differs when read-only calls{} are interleaved ({} vs {} bytes)", if variant % 2 == 1 { " and a close/reopen" } else { "" }, images[0][i].len(), images[1][i].len())); }
+            }
+        }
+        // (b) keys with the same full hash value: read-only calls that miss (for a colliding key that is not stored) or hit, after every
+        //     update of another key of the family, must not change what the next update does
+        let ck = colliding_keys(6);
+        if ck.len() >= 4 {
+            let mut images: Vec<Vec<Vec<u8>>> = Vec::new(); let mut lens_: Vec<u64> = Vec::new();
+            for run in 0..2 {
+                let dir = tmpdir(&format!("detC{run}"));
+                let params = FileDbParams { buckets_size: HashBucketsParam::BucketsSize(16), ..Default::default() };
+                let db = abyssiniandb::open_file(&dir).unwrap();
+                let mut m = db.db_map_bytes_with_params("m", params).unwrap();
+                // (key index, Some(value length) = put / None = delete)
+                let ops: [(usize, Option<usize>); 14] = [(1, Some(3)), (1, Some(3)), (1, Some(40)), (2, Some(5)), (1, Some(2)), (2, None), (2, Some(7)), (3, Some(300)), (1, None), (1, Some(9)), (3, Some(10)), (2, Some(7)), (3, None), (2, Some(90))];
+                for (j, (ki, l)) in ops.iter().enumerate() {
+                    match l { Some(l) => m.put(&ck[*ki][..], &vec![j as u8; *l]).unwrap(), None => { let _ = m.delete(&ck[*ki][..]).unwrap(); } }
+                    if run == 1 {
+                        let _ = m.includes_key(&ck[0][..]).unwrap(); let _ = m.get(&ck[0][..]).unwrap();          // never stored: always a miss
+                        let _ = m.get(&ck[(ki + 1) % 4][..]).unwrap(); let _ = m.includes_key(&ck[(ki + 2) % 4][..]).unwrap(); let _ = m.len().unwrap();
+                        let _ = m.bulk_get(&[&ck[0][..], &ck[4 % ck.len()][..]]).unwrap();
+                    }
+                }
+                lens_.push(m.len().unwrap());
+                drop(m); drop(db);
+                images.push(["key", "val", "htx"].iter().map(|e| std::fs::read(dir.join(format!("m.{e}"))).unwrap()).collect());
+                let _ = std::fs::remove_dir_all(&dir);
+            }
+            if lens_[0] != lens_[1] || lens_[0] != 2 { return Err(format!("keys with equal hash values: len {} without and {} with interleaved read-only calls (2 keys are stored)", lens_[0], lens_[1])); }
+            for (i, e) in ["key", "val", "htx"].iter().enumerate() {
+                if images[0][i] != images[1][i] { return Err(format!("keys with equal hash values: m.{e} differs when read-only calls for other keys of the family are interleaved ({} vs {} bytes)", images[0][i].len(), images[1][i].len())); }
             }
         }
         for (seed, nb) in [(3u64, 8u64), (4, 64), (5, 1024)] {
@@ -1018,6 +1082,30 @@ fn keys() -> i32 {
             for i in 0..6000usize { let mut k = vec![0xffu8; 3 + i * 11 % 60]; k[0] = (i >> 8) as u8; k[1] = i as u8; mb.put(&k[..], &[3]).unwrap(); wantb.insert(k); }
             let gotb: std::collections::BTreeSet<Vec<u8>> = mb.iter().map(|(k, _)| k.as_bytes().to_vec()).collect();
             if gotb != wantb { return Err("bytes map with a large key file: iteration returned keys that were never put".into()); }
+        }
+        // keys with the same full 64-bit hash value are different entries (bytes and string maps), whatever calls come in between
+        {
+            let ck = colliding_keys(8);
+            if ck.len() >= 4 {
+                let db = abyssiniandb::open_file(&dir).unwrap();
+                let mut mb = db.db_map_bytes_with_params("coll-b", params.clone()).unwrap();
+                let mut model: BTreeMap<Vec<u8>, Vec<u8>> = BTreeMap::new();
+                for round in 0..3usize {
+                    for (i, k) in ck.iter().enumerate().skip(1) {
+                        let miss = &ck[(i + 1) % ck.len()];
+                        if mb.includes_key(&miss[..]).unwrap() != model.contains_key(miss) { return Err(format!("colliding keys: includes_key differs from the model in round {round}")); }
+                        if mb.get(&ck[0][..]).unwrap().is_some() { return Err("colliding keys: a key that was never put is found".into()); }
+                        let v = vec![(round * 16 + i) as u8; 1 + round * 30 + i];
+                        mb.put(&k[..], &v).unwrap(); model.insert(k.clone(), v);
+                        if mb.len().unwrap() != model.len() as u64 { return Err(format!("colliding keys: len {} after put #{i} of round {round}, {} distinct keys were put", mb.len().unwrap(), model.len())); }
+                        if round == 1 && i % 3 == 0 { let r = mb.delete(&k[..]).unwrap(); if r != model.remove(k) { return Err("colliding keys: delete differs from the model".into()); } }
+                    }
+                    for (k, v) in &model { if mb.get(&k[..]).unwrap().as_ref() != Some(v) { return Err(format!("colliding keys: get differs from the model in round {round}")); } }
+                    let it: BTreeMap<Vec<u8>, Vec<u8>> = mb.iter().map(|(k, v)| (k.as_bytes().to_vec(), v)).collect();
+                    if it != model { return Err(format!("colliding keys: iteration differs from the model in round {round}")); }
+                }
+            }
+            let _ = std::fs::remove_dir_all(&dir);
         }
         let _ = std::fs::remove_dir_all(&dir);
         let alpha = [0x00u8, 0x61, 0x62, 0x80, 0xc3, 0xff];
